@@ -290,15 +290,17 @@ func (sm *Str2Str) LoadFromSlice(kk, vv []string) error {
 			return errors.New("key too large")
 		}
 	}
-	if sm.strStore == nil || sm.strStore.Views(kk) {
+	st := sm.strStore
+	if st == nil || st.Views(kk) {
 		// a key may be a view of the value store (returned by Get):
 		// its buffer must not be overwritten before the keys are copied
-		sm.strStore = strstore.New()
+		st = strstore.New()
 	}
-	ids, err := sm.strStore.Load(vv)
+	ids, err := st.Load(vv)
 	if err != nil {
 		return err
 	}
+	sm.strStore = st // only now: a rejected load must leave the map as it was
 	if sm.strMap == nil {
 		sm.strMap = New[int]()
 	}
